@@ -250,3 +250,9 @@ package hub
 //@ guarded Hub.connectionAttemptCounter, Hub.connectionAttemptRunning by Hub.muxConAttempt
 //@ guarded Hub.knownMdnsEntries by Hub.muxMdns
 //@ guarded Hub.hasStarted, Hub.isShutdown by Hub.muxStarted
+
+// ---- construction: the registries' invariant is established by NewHub ----
+//@ func NewHub(hubReader, mdns, port, certificate, localService) [C15,C10,C11]
+//@   requires hubReader != nil && mdns != nil && localService != nil
+//@   ensures result != nil && !result.hasStarted && !result.isShutdown
+//@   establishes result
